@@ -157,7 +157,7 @@ class Module:
 
 
 class Program:
-    def __init__(self, root=None):
+    def __init__(self, root=None, normalise=True):
         self.root = root or REPO
         self.modules = {}
         self.classes = {}      # qual -> ClassInfo
@@ -174,7 +174,19 @@ class Program:
                 self.modules[name] = Module(name, p, text)
             except SyntaxError as ex:
                 raise AnalysisError('module %s does not parse: %s' % (p, ex))
+        self.reindex()
+        self.normalisation = None
+        if normalise:
+            from .normalise import Inliner
+            from .resolve import Resolver
+            self.normalisation = Inliner(self, Resolver).run()
+
+    def reindex(self):
+        """(re)build the class / function / constant indexes from the module trees"""
+        self.classes = {}
+        self.functions = {}
         for m in self.modules.values():
+            m.classes, m.functions, m.consts, m.imports = {}, {}, {}, {}
             self._index_module(m)
         for c in list(self.classes.values()):
             self._resolve_bases(c)
